@@ -22,7 +22,7 @@ pub fn check() -> Check {
         batches: |t: Tier| vec![Batch::new("edges", t.pick(10000, 200000), 300), Batch::new("exact", t.pick(10000, 200000), 300), Batch::new("target", t.pick(2500, 40000), 150)],
         run,
         replay,
-        probes: &["edges_checked", "edge_po", "edge_spawn", "edge_join", "edge_unlock_lock", "edge_rw", "edge_send_recv", "edge_recv_send_bounded", "edge_atomic", "edge_sem_release_acquire", "edge_notify_wait", "concurrent_pairs_checked", "target_replays", "target_replay_skipped_steps"],
+        probes: &["edges_checked", "edge_po", "edge_spawn", "edge_join", "edge_unlock_lock", "edge_rw", "edge_send_recv", "edge_recv_send_bounded", "edge_atomic", "edge_sem_release_acquire", "edge_notify_wait", "edge_once", "edge_once_init_observed", "concurrent_pairs_checked", "target_replays", "target_replay_skipped_steps"],
     }
 }
 
@@ -44,6 +44,8 @@ struct Sample {
     clock: Vec<u32>,
     uv: u64,
     advancing: bool,
+    /// index of the sample's clock event in the execution's log
+    ev: usize,
 }
 
 fn dominates(b: &[u32], a: &[u32]) -> bool {
@@ -69,7 +71,7 @@ fn samples_of(p: &Program, ex: &ExecTrace) -> Vec<Sample> {
     let bm = body_map(p, ex);
     let mut v = vec![];
     let mut last_e: BTreeMap<u32, (String, String)> = BTreeMap::new();
-    for e in &ex.events {
+    for (ev, e) in ex.events.iter().enumerate() {
         if e.kind == "E" {
             last_e.insert(e.task, (e.op.clone(), e.val.clone()));
         }
@@ -85,7 +87,7 @@ fn samples_of(p: &Program, ex: &ExecTrace) -> Vec<Sample> {
             if let Some((op, uv)) = op_for_label(p, b, &e.op) {
                 let clock: Vec<u32> = if e.val.is_empty() { vec![] } else { e.val.split(',').filter_map(|x| x.parse().ok()).collect() };
                 let advancing = is_advancing(&op, &val);
-                v.push(Sample { task: e.task, body: b, label: e.op.clone(), op, val, clock, uv, advancing });
+                v.push(Sample { task: e.task, body: b, label: e.op.clone(), op, val, clock, uv, advancing, ev });
             }
         }
     }
@@ -283,6 +285,49 @@ fn edges(p: &Program, s: &[Sample], bm_rev: &BTreeMap<usize, u32>) -> Vec<(usize
     e
 }
 
+/// Once: (a) the initialising call -> every caller that returns after the initialiser completed;
+/// (b) when the initialiser itself synchronised (it loaded atomic 0, event IL, and saw the value
+/// of an identifiable store W), W -> every such caller (transitively: W -> load inside the
+/// initialiser -> completion -> later caller).
+fn once_edges(p: &Program, ex: &ExecTrace, s: &[Sample]) -> Vec<(usize, usize, &'static str)> {
+    let mut out = vec![];
+    for o in 0..p.res.onces {
+        let os = o.to_string();
+        let i_ev = match ex.events.iter().position(|e| e.kind == "I" && e.op == os) {
+            Some(k) => k,
+            None => continue,
+        };
+        let t = ex.events[i_ev].task;
+        let j_ev = match ex.events.iter().position(|e| e.kind == "J" && e.op == os) {
+            Some(k) => k,
+            None => continue,
+        };
+        let is_call = |x: &Sample| matches!(&x.op, Op::CallOnce(y, _) if *y == o);
+        let init = match s.iter().position(|x| x.ev > j_ev && x.task == t && is_call(x)) {
+            Some(i) => i,
+            None => continue,
+        };
+        let later: Vec<usize> = (0..s.len()).filter(|j| s[*j].ev > j_ev && is_call(&s[*j])).collect();
+        for j in &later {
+            if s[*j].task != t {
+                out.push((init, *j, "edge_once"));
+            }
+        }
+        if let Some(il) = ex.events.iter().position(|e| e.kind == "IL" && e.op == os && e.task == t) {
+            if let Ok(v) = ex.events[il].val.parse::<u64>() {
+                if v != 0 {
+                    if let Some(w) = s.iter().position(|x| x.ev < il && x.uv == v && matches!(&x.op, Op::AStore(0) | Op::ASwap(0))) {
+                        for j in &later {
+                            out.push((w, *j, "edge_once_init_observed"));
+                        }
+                    }
+                }
+            }
+        }
+    }
+    out
+}
+
 fn gen_case(batch: &str, rng: &mut Rng) -> Case {
     let mut cfg = GenCfg::none();
     cfg.max_bodies = rng.range(2, 4);
@@ -310,6 +355,7 @@ fn gen_case(batch: &str, rng: &mut Rng) -> Case {
         cfg.rand = false;
     }
     let mut prog = gen_program(rng, &cfg);
+    prog.res.once_init_load = prog.res.onces > 0 && prog.res.atomics > 0 && rng.chance(2, 3);
     if batch == "exact" {
         for c in prog.res.chans.iter_mut() {
             *c = None;
@@ -334,6 +380,21 @@ fn gen_case(batch: &str, rng: &mut Rng) -> Case {
                 };
             }
         }
+    }
+    if batch == "edges" && rng.chance(1, 16) {
+        // directed: a store, an initialiser that reads it, and callers that arrive at any time
+        // (before, during, after the initialisation); nothing else orders them
+        let late = |rng: &mut Rng| -> Vec<Op> {
+            let mut v = vec![];
+            for _ in 0..rng.below(3) {
+                v.push(Op::Yield);
+            }
+            v.push(Op::CallOnce(0, false));
+            v.push(Op::ALoad(0));
+            v
+        };
+        let bodies = vec![vec![Op::Spawn(1), Op::Spawn(2), Op::Spawn(3), Op::Join(0), Op::Join(1), Op::Join(2)], vec![Op::AStore(0)], vec![Op::CallOnce(0, rng.chance(1, 2))], late(rng)];
+        prog = Program { res: crate::prog::Resources { onces: 1, atomics: 1, once_init_load: true, ..Default::default() }, bodies };
     }
     let mut sim = SimCfg::new(rng.next_u64());
     sim.policy = random_policy(rng);
@@ -371,7 +432,8 @@ fn check_case(case: &Case, out: &mut RunOut) {
     let s = samples_of(p, ex);
     let bm = body_map(p, ex);
     let bm_rev: BTreeMap<usize, u32> = bm.iter().map(|(t, b)| (*b, *t)).collect();
-    let es = edges(p, &s, &bm_rev);
+    let mut es = edges(p, &s, &bm_rev);
+    es.extend(once_edges(p, ex, &s));
     let n = s.len();
     let mut cross = false;
     // (i) + (iii)
@@ -394,6 +456,16 @@ fn check_case(case: &Case, out: &mut RunOut) {
                         src[t] -= 1;
                     }
                 }
+            }
+        }
+        if *kind == "edge_once" {
+            // the completion clock is published before the initialising call releases the cell's
+            // internal lock, which ticks the caller's own component again: compare that component
+            // as of the initialising task's previous sample
+            let t = s[*a].task as usize;
+            let prev = (0..*a).rev().find(|k| s[*k].task == s[*a].task).map(|k| s[k].clock.get(t).cloned().unwrap_or(0)).unwrap_or(0);
+            if t < src.len() {
+                src[t] = prev;
             }
         }
         if !dominates(&s[*b].clock, &src) {
